@@ -702,7 +702,7 @@ func (p placeOp) line(kind string) string {
 func (g *Gen) malformPlace(p *placeOp, isPlace bool) {
 	kinds := []string{"signer", "price0", "priceNeg", "amt0", "amtNeg", "denom99"}
 	if isPlace {
-		kinds = append(kinds, "typeX")
+		kinds = append(kinds, "typeX", "typeN")
 	}
 	switch kinds[g.intn(len(kinds))] {
 	case "signer":
@@ -719,6 +719,8 @@ func (g *Gen) malformPlace(p *placeOp, isPlace bool) {
 		p.denom = InvalidDenomIdx
 	case "typeX":
 		p.typ = "X"
+	case "typeN":
+		p.typ = "N"
 	}
 }
 
